@@ -1306,3 +1306,7 @@ package mail
 // switches STARTTLS off.)
 //@ at mail.Client.DialToSMTPClientWithContext smtp.NewClient#* before assert[C07:implicit-tls-means-tls-dialer] (c.useSSL && c.dialContextFunc == nil) ==> isEncrypted
 //@ at mail.Client.DialToSMTPClientWithContext smtp.NewClient#* before assert[C07:implicit-tls-means-tls-transport] (c.useSSL && c.dialContextFunc != nil) ==> isEncrypted
+// C18: the Content-Type field of a multipart layer is written with its boundary parameter on a continuation line
+// of its own: `Content-Type: multipart/<subtype>;` is short, and ` boundary=<b>` is a single token whatever the
+// boundary's length (a caller-chosen boundary of 39 to 70 characters on the first line would exceed 78 with blanks)
+//@ at mail.msgWriter.startMP fmt.Sprintf#1 before assert[C18:boundary-on-a-line-of-its-own] arg0 == "multipart/%s;\r\n boundary=%s"
